@@ -101,7 +101,7 @@ def main(argv=None):
         for feat in configs:
             path, sha, cached, secs = extract.facts_path(args.repo, feat)
             facts = Facts(path, repo=args.repo)
-            if os.path.abspath(args.repo) != "/repo":
+            if os.path.abspath(args.repo) != "/repo" and not os.environ.get("UTPSA_KEEP_SCRATCH"):
                 try:
                     os.unlink(path)  # scratch copies are analysed once
                 except OSError:
